@@ -239,6 +239,123 @@ func genCase(r *rng.R, model int, op uint8) *cpuCase {
 	return c
 }
 
+// flowCases: programs of more than one instruction around the question WHERE a run may halt (property C11: a run that
+// stops halts at a BRK or returns an error).  Undefined memory reads 0 = BRK, so every case says explicitly what lies at
+// the place execution must continue at.  The specification's own run (driver: class `multi.*`) either never reaches a
+// BRK within the bus budget (JMP to itself, taken branch to itself, loops through RTS: the code must exhaust the budget
+// too) or reaches it / an undefined opcode later, somewhere else (RTS and pulls with a wrapping stack pointer, JMP over
+// undefined opcodes).
+func flowCases(r *rng.R, model int) []*cpuCase {
+	out := []*cpuCase{}
+	illegal := []uint8{0x02, 0x03, 0x0B, 0x13, 0x40, 0xDB, 0xCB}
+	mk := func(pc uint16, sp uint8) *cpuCase {
+		c := &cpuCase{Model: model, Mem: map[uint16]uint8{}, Budget: 60}
+		c.R = regs{PC: pc, SP: sp, A: r.BByte(), X: r.Byte(), Y: r.Byte(), P: r.Byte() &^ 0x08}
+		return c
+	}
+	put := func(c *cpuCase, a uint16, bs ...uint8) uint16 {
+		for _, b := range bs {
+			c.Mem[a] = b
+			a++
+		}
+		return a
+	}
+	// what the program finds where it must continue: BRK, V BRK, an undefined opcode, an endless loop
+	end := func(c *cpuCase, a uint16, k int) {
+		switch k % 4 {
+		case 0:
+			put(c, a, 0x00)
+		case 1:
+			put(c, a, 0xEA, 0x00)
+		case 2:
+			put(c, a, rng.PickU8(r, illegal), 0x00)
+		case 3:
+			put(c, a, 0x4C, uint8(a), uint8(a>>8), 0x00)
+		}
+	}
+	pcs := []uint16{0x0800, 0x08FD, 0x08FE, 0xFFFD, 0xFFFE, 0x00FE, 0x7FFE, 0xC000, r.Word()}
+	// JMP abs to itself: first instruction, and after a prefix; JMP (ind) through a pointer to itself
+	for i, pc := range pcs {
+		c := mk(pc, 0xFF)
+		put(c, pc, 0x4C, uint8(pc), uint8(pc>>8), 0x00)
+		c.Mem[pc-1] = []uint8{0x00, 0xEA}[i%2] // the byte in front of the JMP (a BRK opcode that is never executed / NOP)
+		out = append(out, c)
+	}
+	for i := 0; i < 3; i++ {
+		pc := rng.PickU16(r, pcs)
+		c := mk(pc, r.Byte())
+		a := put(c, pc, 0xA9, r.BByte(), 0xE8) // LDA # ; INX
+		put(c, a, 0x4C, uint8(a), uint8(a>>8), 0x00)
+		out = append(out, c)
+		c = mk(pc, r.Byte())
+		put(c, pc, 0x6C, 0x40, 0x02, 0x00)
+		put(c, 0x0240, uint8(pc), uint8(pc>>8))
+		out = append(out, c)
+	}
+	// JMP over undefined opcodes to a later BRK / V BRK / undefined opcode
+	for i := 0; i < 4; i++ {
+		pc := rng.PickU16(r, pcs)
+		c := mk(pc, r.Byte())
+		t := pc + 3 + uint16(1+r.Intn(3))
+		a := put(c, pc, 0x4C, uint8(t), uint8(t>>8))
+		for ; a != t; a++ {
+			c.Mem[a] = rng.PickU8(r, illegal)
+		}
+		end(c, t, i%3)
+		out = append(out, c)
+	}
+	// a taken branch to itself
+	type br struct{ op, set, clr uint8 }
+	brs := []br{{0xD0, 0, 0x02}, {0xF0, 0x02, 0}, {0x90, 0, 0x01}, {0xB0, 0x01, 0}, {0x10, 0, 0x80}, {0x30, 0x80, 0}, {0x50, 0, 0x40},
+		{0x70, 0x40, 0}, {0x80, 0, 0}}
+	for _, b := range brs {
+		pc := rng.PickU16(r, pcs)
+		c := mk(pc, r.Byte())
+		c.R.P = (c.R.P | b.set) &^ b.clr
+		put(c, pc, b.op, 0xFE, 0x00)
+		out = append(out, c)
+	}
+	// RTS with a wrapping stack pointer: the return address is planted where the pulls find it
+	for i, sp := range []uint8{0xFF, 0xFF, 0xFF, 0xFF, 0xFE, 0xFE, 0x00, 0x00, 0x01, 0xFD, r.Byte(), r.Byte()} {
+		pc := rng.PickU16(r, pcs[:8])
+		c := mk(pc, sp)
+		a := pc
+		if i%3 == 2 {
+			a = put(c, a, 0xA9, r.BByte()) // LDA # in front
+		}
+		a = put(c, a, 0x60, rng.PickU8(r, illegal))
+		t := []uint16{0x0300, 0x0001, 0x9000, a}[i%4]
+		if i == 3 {
+			t = 0x0001 // nothing planted: $0100/$0101 read 0, execution continues at $0001
+		}
+		if i != 3 {
+			c.Mem[0x0100+uint16(sp+1)] = uint8(t - 1)
+			c.Mem[0x0100+uint16(sp+2)] = uint8((t - 1) >> 8)
+		}
+		end(c, t, i/2)
+		out = append(out, c)
+	}
+	// a balanced JSR/RTS pair, then an RTS at SP=$FF
+	for i := 0; i < 2; i++ {
+		pc := uint16(0x0800)
+		c := mk(pc, 0xFF)
+		put(c, pc, 0x20, 0x05, 0x08, 0x60, rng.PickU8(r, illegal), 0xEA, 0x60) // JSR sub ; RTS ; undefined ; sub: NOP ; RTS
+		c.Mem[0x0100], c.Mem[0x0101] = 0xFF, 0x02
+		end(c, 0x0300, 2*i)
+		out = append(out, c)
+	}
+	// pulls with SP=$FF (read $0100), the program goes on afterwards
+	for i, op := range []uint8{0x68, 0x28, 0xFA, 0x7A, 0x68, 0x28} {
+		pc := rng.PickU16(r, pcs[:8])
+		c := mk(pc, 0xFF)
+		c.Mem[0x0100] = r.BByte() &^ 0x08
+		a := put(c, pc, op)
+		end(c, a, 1+i)
+		out = append(out, c)
+	}
+	return out
+}
+
 // cpu1: every opcode of both models, n cases each
 func cpu1(seed uint64, n int, tier string) {
 	root := rng.New(seed)
@@ -251,6 +368,19 @@ func cpu1(seed uint64, n int, tier string) {
 				c := genCase(forks[model], model, uint8(op))
 				res := runGo(c)
 				count("kind." + strings.SplitN(res, " ", 2)[0])
+				emit(c.request() + " => " + res)
+			}
+		}
+	}
+	// where a run may halt: programs of more than one instruction, the two CPU models alternating as above
+	fr := rng.New(seed + 4141)
+	for round := 0; round < 1+n/100; round++ {
+		per := [][]*cpuCase{flowCases(fr.Fork(), 0), flowCases(fr.Fork(), 1)}
+		for i := range per[0] {
+			for model := 1; model >= 0; model-- {
+				c := per[model][i]
+				res := runGo(c)
+				count("flow.kind." + strings.SplitN(res, " ", 2)[0])
 				emit(c.request() + " => " + res)
 			}
 		}
